@@ -17,8 +17,12 @@ def cases():
     cfg = props._cc("Cfg", props._cc("ccAny", a, b, c, id="X", d="a"), id="cfg")
     poly = {"rows": [[1, 1, 1], [-1, -2, -1], [0, 1, 0]], "bounds": [[0, 1], [-1, 2]], "k": 0}
     out = []
-    def add(name, drv, case, op, mut, clause):
-        out.append({"name": name, "drv": drv, "case": case, "op": op, "mut": mut, "clause": clause})
+    def add(name, drv, case, op, mut, clause, pick=None):
+        out.append({"name": name, "drv": drv, "case": case, "op": op, "mut": mut, "clause": clause, "pick": pick})
+    def flip_first(x):
+        """flips the first 0/1 leaf of a nested list in place"""
+        if isinstance(x[0], list): return flip_first(x[0])
+        x[0] = 1 - x[0]
     def flip_iv(iv): return [1 - iv[0], 1 - iv[1]]
     add("evaluate result bit", drivers.drv_evaluate, {"recipe": m1}, "evaluate",
         lambda e: e["points"][0]["res_all"][0].__setitem__(1, [7, 7]), "val_equal")
@@ -101,6 +105,20 @@ def cases():
         lambda e: [x for x in e["steps"][0]["after"] if x[0] == "h2"][0][1].__setitem__("value", 7), "store_unchanged")
     add("answer after re-loading differs from fresh", drivers.drv_history, hist2, "history",
         lambda e: e["steps"][1]["res"]["dpv"].__setitem__(0, 9), "result_as_fresh")
+    ph = {"init": props.POLY_CATALOG[1], "calls": ["row_bounds", "reduce_cols_q", "sat", "reduce_both", "tighten"], "k": 0}
+    add("polyhedron history: row bound of a later step", drivers.drv_poly_history, ph, "poly_history",
+        lambda e: e["steps"][0]["res"][0].__setitem__(0, e["steps"][0]["res"][0][0] + 1), "ph_rowb")
+    add("polyhedron history: receiver changed by a call made for its result", drivers.drv_poly_history, ph, "poly_history",
+        lambda e: e["steps"][1]["after"]["rows"][0].__setitem__("b", e["steps"][1]["after"]["rows"][0]["b"] + 1), "ph_receiver_unchanged")
+    add("polyhedron history: classification after other calls", drivers.drv_poly_history, ph, "poly_history",
+        lambda e: flip_first(e["steps"][2]["res"]), "ph_sat")
+    add("polyhedron history: reduction result is not the projection", drivers.drv_poly_history, ph, "poly_history",
+        lambda e: e["steps"][3]["new"]["rows"].append({"b": 9, "a": [0] * len(e["steps"][3]["new"]["cols"])}) if e["steps"][3]["new"]["cols"] else e["steps"][3]["fixed"].__setitem__(0, False), "ph_projection")
+    add("classification of a 4-D stack", drivers.drv_classify, dict(poly, k=3, points=[[[0, 0], [1, 2]], [[1, 1], [0, -1]]]), "classify",
+        lambda e: flip_first(e["rowsep"]), "rowsep_value", pick=lambda e: e.get("ndim") == 4)
+    hist3 = {"handles": {"h1": m2, "h2": cfg}, "calls": [{"h": "h2", "op": "builtin", "d": {}, "rule": None}, {"h": "h2", "op": "to_b64", "d": {}, "rule": None}]}
+    add("packing fails after the library's own solver was used", drivers.drv_history, hist3, "history",
+        lambda e: e["steps"][1].__setitem__("res", "0" * 24), "result_as_fresh")
     add("malformed event (evaluation error)", drivers.drv_errors, {"recipe": m2}, "errors",
         lambda e: e["model"].__setitem__("kids", 3), "spec_eval_error")
     return out
@@ -116,7 +134,7 @@ def run(ctx):
         evs = core._safe_call(c["drv"], case)
         if any(e["op"] == "exc" for e in evs):
             raise core.Machinery("selftest driver failed for %s: %s" % (c["name"], evs))
-        good = copy.deepcopy(_first(evs, c["op"]))
+        good = copy.deepcopy(next(e for e in evs if e["op"] == c["op"] and (c.get("pick") is None or c["pick"](e))))
         bad = copy.deepcopy(good)
         c["mut"](bad)
         t1 = ctx.add_event(good, {"selftest": c["name"], "variant": "unchanged"})
